@@ -23,6 +23,7 @@ impl Wake for WakeFlag {
 
     fn wake_by_ref(self: &Arc<Self>) {
         self.fired.fetch_add(1, Ordering::AcqRel);
+        crate::sched::progress();
         if self.stale.load(Ordering::Acquire) != 0 {
             stats::inc(C::probe_stale_waker_used);
         }
